@@ -156,9 +156,8 @@ def run(res, tier):
                 n = A.strip_casts(f3.nodes[cid])
                 if n['k'] == 'DeclRefExpr' and n.get('d') == toself and truth:
                     good = True
-                if n['k'] == 'BinaryOperator' and n.get('op') in ('!=', '=='):
-                    l, r = A.strip_casts(n['ch'][0]), A.strip_casts(n['ch'][1])
-                    if 'CXXThisExpr' in (l['k'], r['k']) and any(x.get('d') == tgt3.get('d') for x in (l, r)) and (truth == (n['op'] == '!=')):
+                for (l, op_, r) in A.rel_forms(n, truth):
+                    if op_ == '!=' and l['k'] == 'CXXThisExpr' and r.get('d') == tgt3.get('d'):
                         good = True
             ok = ok and good
         res.ob('GUARD', f3.where(dl[0]), 'BroadcastToAllSessions skips the sender unless toSelf', ok, how='%d paths checked' % len(paths), function=f3.q, key='GUARD|%s|self' % f3.q,
@@ -183,14 +182,15 @@ def run(res, tier):
         if blk.cond is None or blk.cond not in cc.nodes:
             continue
         cn = cc.nodes[blk.cond]
-        if cn['k'] == 'BinaryOperator' and cn.get('op') in ('<', '<=') and A.strip_casts(cn['ch'][0])['k'] == 'DeclRefExpr' and any(x.is_call() and (x.get('q') or '').endswith('DataNode::GetDepth') for x in cn['ch'][1].walk()):
-            rhs = A.strip_casts(cn['ch'][1])
+        for (lhs_, op_, rhs) in A.rel_forms(cn, True):
+            if not (op_ in ('<', '<=') and lhs_['k'] == 'DeclRefExpr' and any(x.is_call() and (x.get('q') or '').endswith('DataNode::GetDepth') for x in rhs.walk())):
+                continue
             K = 0
             if rhs['k'] == 'BinaryOperator' and rhs.get('op') == '-' and 'v' in A.strip_casts(rhs['ch'][1]):
                 K = A.strip_casts(rhs['ch'][1])['v']
             elif rhs['k'] == 'BinaryOperator' and rhs.get('op') == '+' and 'v' in A.strip_casts(rhs['ch'][1]):
                 K = -A.strip_casts(rhs['ch'][1])['v']
-            Ks.append(K + (0 if cn['op'] == '<' else -1))      # R <= X  is  R < X+1
+            Ks.append(K + (0 if op_ == '<' else -1))      # R <= X  is  R < X+1
     if len(Ks) < 2 or len(set(Ks)) != 1:
         raise AnalysisBroken('ONCE: the pop-up tests of CheckChildForTraversal were not found or disagree: %s' % Ks)
     K = Ks[0]
